@@ -232,6 +232,15 @@ func raceSig(report string) (sig string, lib bool) {
 			if x == "" {
 				break
 			}
+			if strings.HasPrefix(x, "verif/") || strings.HasPrefix(x, "main.") {
+				// the access itself happened in harness code (reached before any library frame,
+				// walking down from the access): a harness race, not the library's
+				f = "harness:" + x
+				if k := strings.LastIndex(f, "("); k > 0 {
+					f = f[:k]
+				}
+				break
+			}
 			if strings.HasPrefix(x, "github.com/sdcio/yang-parser/") && !strings.Contains(x, "zz_verifsimrt") {
 				f = strings.TrimPrefix(x, "github.com/sdcio/yang-parser/")
 				if k := strings.LastIndex(f, "("); k > 0 {
@@ -546,6 +555,10 @@ func (w world) RunCase(t *tape.Tape, st *super.Stats) *super.Violation {
 			return &super.Violation{Class: "shared-state-mutated", Sig: "shared-state-mutated|machine-listing",
 				Detail: fmt.Sprintf("shared machine %d prints differently after the runs\n%s", i, desc())}
 		}
+	}
+	if ok, why := tree.ValuesIntact(); !ok {
+		return &super.Violation{Class: "shared-state-mutated", Sig: "shared-state-mutated|tree-owned-value",
+			Detail: "a leaf-list value slice owned by the data tree (wrapped by NewDatumSliceDatum in Entry.GetValue) was modified by a run: " + why + "\n" + desc()}
 	}
 	if ok, why := tree.PathsIntact(); !ok {
 		tree.RestorePaths()
